@@ -366,7 +366,7 @@ class BoboDistributedTCP(BoboDistributed,
                 if self._thread_closed:
                     return
 
-                outlist: List[Tuple[BoboDeviceManager, int]] = []
+                outlist: List[Tuple[BoboDeviceManager, int, int]] = []
                 now: int = self._now()
 
                 # Determine what to send to each device...
@@ -374,6 +374,11 @@ class BoboDistributedTCP(BoboDistributed,
                     # Ignore self...
                     if d.urn == self._urn:
                         continue
+
+                    # Read before the times below: if the device asks for a
+                    # reset after this point, a successful send in this pass
+                    # must not be recorded as the last communication.
+                    resets: int = d.resets
 
                     comms_range: int = (now - d.last_comms)
                     attempt_range: int = (now - d.last_attempt)
@@ -383,7 +388,7 @@ class BoboDistributedTCP(BoboDistributed,
                     if comms_range >= self._period_resync:
                         # ...and due to attempt another RESYNC...
                         if attempt_range >= self._attempt_resync:
-                            outlist.append((d, _TYPE_RESYNC))
+                            outlist.append((d, _TYPE_RESYNC, resets))
 
                     # If device is within the "PING Period"
                     # and there is nothing to SYNC...
@@ -393,7 +398,7 @@ class BoboDistributedTCP(BoboDistributed,
                     ):
                         # ...and due to attempt another PING...
                         if attempt_range >= self._attempt_ping:
-                            outlist.append((d, _TYPE_PING))
+                            outlist.append((d, _TYPE_PING, resets))
 
                     # If device is within the "SYNC Period"
                     # or "PING Period" with something left to SYNC...
@@ -404,12 +409,12 @@ class BoboDistributedTCP(BoboDistributed,
                                 d.size_stash() > 0 and
                                 attempt_range >= self._attempt_stash
                         ):
-                            outlist.append((d, _TYPE_SYNC))
+                            outlist.append((d, _TYPE_SYNC, resets))
 
             # Compiled SYNC data for sending to all devices
             cache_sync: Optional[Dict[str, List[BoboRunSerial]]] = None
 
-            for d, msg_type in outlist:
+            for d, msg_type, resets in outlist:
                 # Set flags
                 msg_flags: int = 0
 
@@ -438,7 +443,7 @@ class BoboDistributedTCP(BoboDistributed,
                     if err == 0:
                         logging.debug("{} Resync SUCCESS: {}"
                                       .format(self._urn, d.urn))
-                        d.last_comms = now
+                        d.contacted(now, resets)
 
                         if (msg_flags & _FLAG_RESET) == _FLAG_RESET:
                             d.flag_reset = False
@@ -460,7 +465,7 @@ class BoboDistributedTCP(BoboDistributed,
                     if err == 0:
                         logging.debug("{} Ping SUCCESS: {}"
                                       .format(self._urn, d.urn))
-                        d.last_comms = now
+                        d.contacted(now, resets)
 
                         if (msg_flags & _FLAG_RESET) == _FLAG_RESET:
                             d.flag_reset = False
@@ -509,7 +514,7 @@ class BoboDistributedTCP(BoboDistributed,
 
                         # Update last comms on success and clear stash
                         d.clear_stash()
-                        d.last_comms = now
+                        d.contacted(now, resets)
 
                         if (msg_flags & _FLAG_RESET) == _FLAG_RESET:
                             d.flag_reset = False
